@@ -93,7 +93,10 @@ func strictCheck(in *sp.Inst, cfg sp.Cfg) (sig, what string) {
 
 type nullLogger struct{ n int }
 
-func (l *nullLogger) Printf(format string, vals ...interface{}) { l.n++ }
+func (l *nullLogger) Printf(format string, vals ...interface{}) {
+	// built as a real logger would build it (String methods run), thrown away
+	l.n += len(fmt.Sprintf(format, vals...))
+}
 
 func clip(b []byte) []byte {
 	if len(b) > 200 {
